@@ -27,10 +27,25 @@ MANIFEST = {
             "C10_protect_sync, C10_same_as_fresh, C10_sync_is_async_*); C10_monotone_step, C10_monotone; C10_load_serves, C10_store_serves, C10_no_repeat_rpc (once served, every later "
             "unprotect / protect-naming-the-root-key at or before that position on the triple adds no pending RPC and has o_rpcs = 0). The kernels enter only through C10_kernels and "
             "C10_root_envelope_wins. Examples: the reference DC meets both DC hypotheses for every key type; a toy interleaved history; a wrong root key gives a wrong key; a conforming reply "
-            "without the L2 key at L2 = 31 makes protect use the empty key (why the DC hypothesis has that clause; D13/C17).",
+            "without the L2 key at L2 = 31 makes protect use the empty key (why the DC hypothesis has that clause; D13/C17). "
+            "Refinement (coq/Proofs/C10Refine.v, C10_refine_* / C10_concrete_*): the concrete cache model of Model/Client.v (real envelopes, cc_get_key / cc_store_key / cc_load, the unprotect "
+            "pipeline unprotect_online that the flow ties connect to the source) refines this state machine under an abstraction function abs with K := res bytes, kdf := the concrete chain step "
+            "Chain.kdfK, l1seed := compute_l1_key, octet strings numbered injectively: abs commutes with init / load_key / _store_key (unconditionally) and _get_key (for an L0 the source accepts "
+            "and root keys naming a supported hash); one unprotect call is one abstract unprotect step (cache afterwards; o_rpcs = 0 exactly when the call equals the offline function for every "
+            "network oracle); histories of {load_key, sync unprotect} are simulated (C10_refine_history); hence C10_concrete_no_repeat_rpc and C10_concrete_transparent (the envelope a completed "
+            "call decrypts with has, at the blob's position, the MS-GKDI chain key of the true root key as L2 key), with a symg instance (C10_refine_ex_*).",
     "note": "Loads are of true root keys and the DC is conforming (hypotheses of the theorems, built that way in the harness). CPython's single-threaded event loop makes await points the only interleaving points; OS threads sharing a cache are outside the model.",
     "technique": "Coq proof (state-machine invariant by induction over event histories) + history/interleaving correspondence",
 }
+PARTIAL = [
+    "C10_refine_protect_partial: wanted = the protect path of the refinement like the unprotect path (C10_refine_unprotect: hypotheses on inputs only; histories containing protect calls in "
+    "C10_refine_history; the two concrete corollaries also for protect). Proved: one protect_online call is one abstract Cache.protect step (cache afterwards, RPC decision) UNDER two extra "
+    "hypotheses that depend on the cache contents - _get_protection_gke_from_cache does not raise (KDF parameters of the cached envelope unpack, compute_l2_key succeeds), and a cached envelope "
+    "it finds names the hash h the abstract kdf is instantiated with. Missing: deriving both from conformance of cached envelopes (Inv of abs cc: needs 'a conforming chain over K = res bytes "
+    "is error-free for an in-range L0' and a per-envelope hash invariant, since the abstract kdf has ONE hash while concrete envelopes carry their own KDF parameters), and with it protect events "
+    "in concrete histories. Also: Model/Client.v protect_online / protect_offline return the ORIGINAL cache when _get_protection_gke_from_cache raises, the abstract model the cache after _get_key "
+    "(the Python object is mutated before the raise): outside the hypotheses, not a property any theorem uses.",
+]
 ASSUMPTIONS = ["root keys loaded into the cache are the true root keys; the domain controller returns conforming envelopes (reference DC in the harness)",
                "asyncio interleaves coroutines only at await points"]
 RULE = ("histories of depth <= 5 (thorough 7) over {load root key, unprotect at 6 positions x 2 L0 x 2 SIDs, protect now with/without root key id} enumerated for small depth and "
